@@ -10,7 +10,11 @@ Inputs (the structured part comes from the specifications, the rest is seeded ra
  (4) extreme literals (magnitudes 2^31 .. 2^128 and beyond, long digit strings, extreme fields) in every literal
      position: initialisers, expressions, subrange and array bounds, string lengths, TASK INTERVAL / PRIORITY,
      SFC priority, CASE selectors, repeat counts, direct addresses;
- (5) token soup and arbitrary bytes up to 64 KiB, in-process and through `ironplcc check|echo|tokenize`.
+ (5) token soup and arbitrary bytes up to 64 KiB, in-process and through `ironplcc check|echo|tokenize`;
+ (6) the semantic side: every unit of Unit.tla's corpus (base, growth, each planted fault: undeclared types, invoked
+     variables that are no function block, unknown formals ...) and the deep / wide declaration graphs of Recursion.tla
+     (chains, ladders with 2^(n/2) paths, fans, dense graphs on 16 and 40 nodes, with and without a cycle) in every
+     realisation, also with every declaration written twice (duplicates must be reported, in time).
 Oracle: every stage returns (a panic, abort, stack overflow or exceeding the CPU budget is a violation).
 """
 import os
@@ -23,6 +27,8 @@ sys.path.insert(0, os.path.join(os.path.dirname(os.path.abspath(__file__)), ".."
 import corpus  # noqa: E402
 import gram  # noqa: E402
 import gramcheck  # noqa: E402
+import graphreal  # noqa: E402
+import unitgen  # noqa: E402
 import vlib  # noqa: E402
 
 BUDGET_CPU_S = 10.0     # per input, debug build; the slowest legitimate input (unterminated depth-12 nesting) needs ~0.15 s
@@ -131,6 +137,9 @@ def main():
     small = ["Expr1", "Stmt1", "Types2", "Fb1", "Sfc2", "Config2"]
     lit_pool = ThreadPoolExecutor(max_workers=1)
     lit_cfgs = ["int", "real", "dur", "time", "text"]
+    sem_pool = ThreadPoolExecutor(max_workers=1)
+    sem_future = sem_pool.submit(lambda: (vlib.tlc_check("Unit.tla", "MC_Unit_1.cfg" if tier == "quick" else "MC_Unit_2gp.cfg", workers=2, timeout=7200, name="c04_MC_Unit"),
+                                          [vlib.tlc_check("Recursion.tla", c, workers=2, name="c04_" + c[:-4]) for c in ("MC_Rec_shapes16.cfg", "MC_Rec_shapes40.cfg", "MC_Rec_rand12.cfg")]))
     lit_future = lit_pool.submit(lambda: [vlib.tlc_check("Literal.tla", "MC_Literal_%s.cfg" % g, workers=2, timeout=3600,
                                                          name="c04_MC_Literal_" + g) for g in lit_cfgs])
     ds_small = gramcheck.derivations(small, cov)
@@ -212,6 +221,24 @@ def main():
         inputs.append(("soup", corpus.soup(rng, rng.randrange(1, 120))))
         n = rng.choice([1, 3, 10, 100, 1000]) if i % 50 else rng.randrange(1000, 65536)
         inputs.append(("bytes", corpus.random_bytes_text(rng, n)))
+    # (6) units and declaration graphs
+    ru, rgs = sem_future.result()
+    cov["states"] += ru["states"] + sum(r["states"] for r in rgs)
+    cov["transitions"] += ru["transitions"] + sum(r["transitions"] for r in rgs)
+    for x in ru["replay"]:
+        if x.get("R") == "unit":
+            inputs.append(("unit:" + (x["edits"][-1][0] if x["edits"] else "base"), unitgen.render(x["unit"])[0]))
+    for r in rgs:
+        for g in r["replay"]:
+            if g.get("R") != "graph":
+                continue
+            reals = [("fb", graphreal.realise_fb(g)), ("struct", graphreal.realise_struct(g)), ("struct+alias", graphreal.realise_struct(g, alias=True)),
+                     ("mixed", graphreal.realise_mixed(g, 1))]
+            if all(len(graphreal.outs(g, i)) <= 1 for i in range(1, g["n"] + 1)):
+                reals.append(("enum-alias", graphreal.realise_enum_alias(g)))
+            for kind, text in reals:
+                inputs.append(("graph:%s:%s:n=%d" % (g.get("shape", "-"), kind, g["n"]), text))
+                inputs.append(("graph-twice:%s:%s:n=%d" % (g.get("shape", "-"), kind, g["n"]), graphreal.twice(text)))
     base = corpus.repo_sources()
     for name, t in base:
         for _ in range(2 if tier == "quick" else 20):
